@@ -276,6 +276,34 @@ func c19Rate(c *Ctx) {
 				if ex, isEx := st.Val.(*ssa.Extract); isEx {
 					if call, isCall := ex.Tuple.(*ssa.Call); isCall && callName(&call.Call) == "time.ParseDuration" {
 						okSrc = true
+					} else if isCall && ex.Index == 0 {
+						// a helper of this package whose every return hands back time.ParseDuration's results unchanged
+						if h := call.Call.StaticCallee(); h != nil && h.Pkg == fn.Pkg && len(h.Blocks) > 0 {
+							all, n := true, 0
+							eachInstr(h, func(j ssa.Instruction) {
+								r, isR := j.(*ssa.Return)
+								if !isR {
+									return
+								}
+								n++
+								good := false
+								if len(r.Results) == 2 {
+									if e0, is0 := r.Results[0].(*ssa.Extract); is0 && e0.Index == 0 {
+										if pc, isPC := e0.Tuple.(*ssa.Call); isPC && callName(&pc.Call) == "time.ParseDuration" {
+											if e1, is1 := r.Results[1].(*ssa.Extract); is1 && e1.Tuple == e0.Tuple && e1.Index == 1 {
+												good = true
+											}
+										}
+									}
+								}
+								if !good {
+									all = false
+								}
+							})
+							if all && n > 0 {
+								okSrc = true
+							}
+						}
 					}
 				}
 			}
@@ -338,6 +366,13 @@ func c19Rate(c *Ctx) {
 				if s, ok := constString(x.Val); ok && s == "1s" {
 					has1s = true
 				}
+			case *ssa.Phi:
+				// `per = "1s"` on one branch, merged with the text after the separator
+				for _, e := range x.Edges {
+					if s, ok := constString(e); ok && s == "1s" {
+						has1s = true
+					}
+				}
 			case *ssa.BinOp:
 				if x.Op == token.ADD {
 					if s, ok := constString(x.X); ok && s == "1" {
@@ -364,6 +399,31 @@ func c19Rate(c *Ctx) {
 			fmtStr, _ = constString(call.Call.Args[0])
 		}
 	})
+	if fmtStr == "" {
+		// concatenation form: strconv.Itoa(f.Freq) + "/" + f.Per.String()
+		eachInstr(str, func(i ssa.Instruction) {
+			bo, ok := i.(*ssa.BinOp)
+			if !ok || bo.Op != token.ADD {
+				return
+			}
+			inner, isInner := bo.X.(*ssa.BinOp)
+			if !isInner || inner.Op != token.ADD {
+				return
+			}
+			num, isNum := inner.X.(*ssa.Call)
+			mid, isMid := constString(inner.Y)
+			dur, isDur := bo.Y.(*ssa.Call)
+			if !isNum || !isMid || !isDur {
+				return
+			}
+			nn := callName(&num.Call)
+			if (nn == "strconv.Itoa" || nn == "strconv.FormatInt") && strings.HasSuffix(describeVal(num.Call.Args[0]), ".Freq") || strings.HasSuffix(describeVal(stripConv(num.Call.Args[0])), ".Freq") {
+				if callName(&dur.Call) == "(time.Duration).String" && strings.HasSuffix(describeVal(dur.Call.Args[0]), ".Per") {
+					fmtStr = "%d" + mid + "%s"
+				}
+			}
+		})
+	}
 	okD := has1s && hasPrefix && strings.Join(gotUnits, ",") == strings.Join(wantUnits, ",") && sep == "/" && fmtStr == "%d"+sep+"%s"
 	c.Check(okD, keyD, rule, "default 1s; units "+strings.Join(gotUnits, ",")+" prefixed with 1; separator "+sep+"; String "+fmtStr,
 		fmt.Sprintf("default-unit=%v unit-prefix=%v units=%v separator=%q String-format=%q", has1s, hasPrefix, gotUnits, sep, fmtStr), c.fnAt(fn), c.fnAt(str))
